@@ -196,7 +196,9 @@ static struct tok *content(const char *name, const char *it)
 {
     if (strcmp(name, "bad") == 0) {
 	char n[32];
-	snprintf(n, sizeof(n), "bad_%s", it);
+	/* bundles: every other execution uses "first entry sound, second entry damaged" instead of a block of junk */
+	bool two = (xid & 1) && (strcmp(it, "tc") == 0 || strcmp(it, "crl") == 0);
+	snprintf(n, sizeof(n), "%s_%s", two ? "bad2" : "bad", it);
 	return token(n);
     }
     return token(name);
